@@ -72,7 +72,8 @@ Denied(i) == cfg.deny /\ reqs[i].expect100
 Over(i) == cfg.streaming /\ reqs[i].big
 
 \* bytes that must have arrived before the handler of request i can be called
-Need(i) == IF cfg.streaming \/ Denied(i) THEN reqs[i].headEnd ELSE reqs[i].end
+\* (pre: a multipart form declared by Content-Length is parsed while the request is read, in both body modes)
+Need(i) == IF (cfg.streaming /\ ~reqs[i].pre) \/ Denied(i) THEN reqs[i].headEnd ELSE reqs[i].end
 
 \* requests the server must not hand to a handler: malformed, over the body limit (buffered mode), or cut short by
 \* the peer closing the connection before the handler could be called (buffered: anywhere; streaming: inside the head)
@@ -110,7 +111,7 @@ Handle(newrd) ==
     /\ phase = "idle" /\ cur <= N /\ ~MustReject(cur)
     /\ sent >= (IF reqs[cur].partial THEN reqs[cur].headEnd ELSE Need(cur))
     /\ newrd <= sent /\ reqs[cur].headEnd <= newrd /\ (newrd <= reqs[cur].end \/ Over(cur))
-    /\ (~cfg.streaming /\ ~Denied(cur)) => newrd = reqs[cur].end
+    /\ ((~cfg.streaming \/ reqs[cur].pre) /\ ~Denied(cur)) => newrd = reqs[cur].end
     /\ Denied(cur) => newrd = reqs[cur].headEnd
     /\ rd' = newrd /\ cons' = 0
     /\ phase' = "handle"
@@ -121,7 +122,7 @@ Handle(newrd) ==
 
 \* streaming: the handler reads k more body bytes; needs them delivered, never more than the body
 StreamRead(k) ==
-    /\ phase = "handle" /\ cfg.streaming /\ ~Denied(cur)
+    /\ phase = "handle" /\ cfg.streaming /\ ~Denied(cur) /\ ~reqs[cur].pre
     /\ k >= 1 /\ cons + k <= BodyLen(cur)
     /\ cons' = cons + k
     \* the wire position of those bytes must have been delivered (chunk framing included: rd moves at least as far)
